@@ -438,10 +438,12 @@ def run_property(prop, tier, only=None, keep=False, seed=0):
         n_heavy = sum(len(heavy[x]) for x in kinds)
         heavy_jobs = min(HEAVY_JOBS, n_heavy)
         light_jobs = max(2, total_jobs - heavy_jobs)
-        n_light = sum(len(light[x]) for x in kinds)
+        # projection harnesses are few but slow (100-400 s each): weight them x3 when sharing job slots
+        w = {x: len(light[x]) * (3 if x == "p" else 1) for x in kinds}
+        n_light = sum(w.values())
         for k in kinds:
             if light[k]:
-                share = max(1, round(light_jobs * len(light[k]) / max(1, n_light)))
+                share = max(2, round(light_jobs * w[k] / max(1, n_light)))
                 groups.append(GroupRun(k, light[k], scratch, min(len(light[k]), share), per_to, mem_kb))
             if heavy[k]:
                 share = max(1, round(heavy_jobs * len(heavy[k]) / max(1, n_heavy)))
